@@ -24,6 +24,7 @@ def items(tier):
         out.append({"kind": "formula", "method": "quantile", "n": n, "Y": "()", "nan": "none"})
     out.append({"kind": "formula", "method": "quantile", "n": 3, "Y": "(2,)", "nan": "one"})
     out.append({"kind": "formula", "method": "quantile", "n": 3, "Y": "()", "nan": "one", "alpha": "(2,)"})
+    out.append({"kind": "formula", "method": "quantile", "n": 2, "Y": "(2,)", "nan": "none", "alpha": "(2,)"})   # vector metric AND vector alpha: axis order
     for n in nb:
         out.append({"kind": "formula", "method": "bc", "n": n, "Y": "()", "nan": "none"})
     out.append({"kind": "formula", "method": "bc", "n": 3, "Y": "()", "nan": "one"})
